@@ -438,11 +438,38 @@ func (v *Verifier) finish(r *Root, e *Enc) {
 	e.st = final
 	env := &SpecEnv{e: e, vars: vars, cur: final, old: map[string]string{}, errCtx: ct.Key + " ensures", noLocals: true}
 	for i, en := range ct.Ensures {
-		t := env.boolExpr(en.E)
 		name := fmt.Sprintf("%s#ensures@%s", r.fnShort, en.Name())
 		if en.Name() == "" {
 			name = fmt.Sprintf("%s#ensures@wf%d", r.fnShort, i+1)
 		}
+		if len(e.rets) > 1 && len(e.rets) <= 12 {
+			// one obligation per return site (in control-flow order): smaller goals than the ite-merged result
+			for k, rt := range e.rets {
+				rvars := map[string]SV{}
+				for n, v := range vars {
+					rvars[n] = v
+				}
+				for ri := 0; ri < sig.Results().Len(); ri++ {
+					nm := ""
+					if ri < len(ct.Results) {
+						nm = ct.Results[ri]
+					} else if sig.Results().At(ri).Name() != "" {
+						nm = sig.Results().At(ri).Name()
+					}
+					if nm != "" {
+						rtT := sig.Results().At(ri).Type()
+						rvars[nm] = SV{t: rt.vals[ri], sort: g.SortOf(rtT), gt: rtT}
+					}
+				}
+				e.st = rt.st
+				renv := &SpecEnv{e: e, vars: rvars, cur: rt.st, old: map[string]string{}, errCtx: ct.Key + " ensures", noLocals: true}
+				t := renv.boolExpr(en.E)
+				r.addObl(&Obligation{Name: fmt.Sprintf("%s.ret%d", name, k+1), Kind: "ensures", Tags: en.Tags, Goal: fmt.Sprintf("(=> %s %s)", rt.reach, t), Src: en.Src})
+			}
+			e.st = final
+			continue
+		}
+		t := env.boolExpr(en.E)
 		r.addObl(&Obligation{Name: name, Kind: "ensures", Tags: en.Tags, Goal: fmt.Sprintf("(=> %s %s)", retReach, t), Src: en.Src})
 	}
 	// frame
